@@ -46,6 +46,15 @@ func omnibus(run *Run, o Omni, visit Visit) {
 				scs = append(scs, &Scenario{W: w, Main: pd, File: "main.tf", Src: []byte(h), Kind: "tf-history"})
 			}
 		}
+		scs = append(scs, blockAddrScenario(r))
+		// JSON renderings of the first (complete) configuration, plain and with hostile strings
+		if len(scs) > 0 {
+			for _, hostile := range []bool{false, true} {
+				if js := jsonScenario(r, scs[0], hostile); js != nil {
+					scs = append(scs, js)
+				}
+			}
+		}
 		for si, s := range scs {
 			run.Count("scenario_" + s.Kind)
 			loc := map[string]interface{}{"seed": run.Res.Seed, "base": bi, "scenario": si, "kind": s.Kind, "src": string(s.Src)}
